@@ -188,6 +188,49 @@ def kinds_dump(rn, kinds, a, b, isnone, n):
         if r[1] != base: return False
     return True
 
+# dumping a malformed object (a nested TypedDict without its required key, a union field holding a value of no member class): every kind fails
+# alike, in every debug mode
+import datetime as _dtm
+class BInner(TypedDict):
+    x: int
+@dataclasses.dataclass
+class BDc:
+    a: int
+    inner: Optional[BInner] = None
+    tag: typing.Union[int, _dtm.date] = 0
+class BNt(NamedTuple):
+    a: int
+    inner: Optional[BInner] = None
+    tag: typing.Union[int, _dtm.date] = 0
+class BTd(TypedDict):
+    a: int
+    inner: NotRequired[Optional[BInner]]
+    tag: NotRequired[typing.Union[int, _dtm.date]]
+@attr.s(auto_attribs=True)
+class BAt:
+    a: int
+    inner: Optional[BInner] = None
+    tag: typing.Union[int, _dtm.date] = 0
+BKINDS = {"dataclass": BDc, "namedtuple": BNt, "typeddict": BTd, "attrs": BAt}
+DPM = {}
+for _k, _K in BKINDS.items():
+    for _dt in DT_MODES:
+        try: DPM[(_k, _dt)] = Retort(debug_trail=_dt).get_dumper(_K)
+        except Exception as _e: ERR.append(("dpm", _k, repr(_e)[:200]))
+BAD_INNER = (None, {"x": 1}, {}, {"y": 1})
+BAD_TAG = (0, _dtm.date(2024, 1, 2), "s", 1.5, None)
+def kinds_dump_bad(ii, ti, a):
+    inner, tag = BAD_INNER[pick(ii, 4)], BAD_TAG[pick(ti, 5)]
+    base = None
+    for k, K in BKINDS.items():
+        for dt in DT_MODES:
+            obj = {"a": a, "inner": inner, "tag": tag} if k == "typeddict" else K(a, inner, tag)
+            r = run(DPM[(k, dt)], obj)
+            sig = ("ok", r[1]) if r[0] else ("err",)
+            if base is None: base = sig
+            elif sig[0] != base[0] or (sig[0] == "ok" and sig[1] != base[1]): return False
+    return True
+
 CONV = {}
 for _k1, _K1 in KINDS.items():
     for _k2, _K2 in KINDS.items():
@@ -214,7 +257,18 @@ class LDcChild(_LBase):
 class LInit:
     def __init__(self, b_c: str, *, n: Optional[int], a: int):
         self.a, self.b_c, self.n = a, b_c, n
-LAYOUTS = {"dc_kw_first": LDcKw, "attrs_kw_first": LAtKw, "dc_inherited_first": LDcChild, "init_reordered": LInit}
+# constructor parameter NAMES that differ from the field ids (alias)
+@attr.s(auto_attribs=True, kw_only=True)
+class LAtAlias:
+    a: int = 0
+    b_c: str = attr.ib(default="x", alias="bc")
+    n: Optional[int] = attr.ib(default=None, alias="nn")
+class LPyAlias(pydantic.BaseModel):
+    a: int = 0
+    b_c: str = pydantic.Field(default="x", alias="bC")
+    n: Optional[int] = pydantic.Field(default=None, alias="nn")
+LAYOUTS = {"dc_kw_first": LDcKw, "attrs_kw_first": LAtKw, "dc_inherited_first": LDcChild, "init_reordered": LInit, "attrs_alias": LAtAlias, "pydantic_alias": LPyAlias}
+ALIAS_CTOR = {"attrs_alias": lambda a, b, n: LAtAlias(a=a, bc=b, nn=n), "pydantic_alias": lambda a, b, n: LPyAlias(a=a, bC=b, nn=n)}
 INPUT_ONLY = ("init_reordered",)          # a plain class has an input shape only (documented): destination and loader, no dumper
 LCONV = {}
 for _ln, _L in LAYOUTS.items():
@@ -230,15 +284,21 @@ for _ln, _L in LAYOUTS.items():
 LLD = {(_ln, _s): Retort(strict_coercion=_s).get_loader(_L) for _ln, _L in LAYOUTS.items() for _s in (True, False)}
 LDP = {_ln: Retort().get_dumper(_L) for _ln, _L in LAYOUTS.items() if _ln not in INPUT_ONLY}
 def mk_any(kind, a, b, n):
+    if kind in ALIAS_CTOR: return ALIAS_CTOR[kind](a, b, n)
     if kind in LAYOUTS: return LAYOUTS[kind](a=a, b_c=b, n=n)
     return mk_obj(kind, a, b, n)
-def layouts_convert(a, b, isnone, n):
+def layouts_convert_ext(a, b, isnone, n):
+    return layouts_convert(EXT_POOL_A[pick(a, 3)], EXT_POOL_B[pick(b, 3)], isnone, EXT_POOL_A[pick(n, 3)], True)
+def layouts_convert(a, b, isnone, n, ext=False):
     """converters copy every field whatever the order of constructor parameters vs declared fields; loaders and dumpers of the layouts agree with the dataclass"""
     nv = None if isnone else n
     for (k1, k2), c in LCONV.items():
+        if ("pydantic_alias" in (k1, k2)) != ext: continue            # pydantic validates in compiled code: pooled concrete values only
         out = c(mk_any(k1, a, b, nv))
         if fields_of(k2, out) != (a, b, nv): return False
+    if ext: return True
     for ln in LAYOUTS:
+        if ln in ALIAS_CTOR: continue                     # (external keys of alias layouts are kind-specific; the converters above are the subject)
         for s in (True, False):
             o = outcome(LLD[(ln, s)], {"a": a, "b_c": b, "n": nv})
             if o[0] != "ok" or fields_of(ln, o[2]) != (a, b, nv): return False
@@ -293,10 +353,16 @@ def build(tier, seed):
          timeout=tmo, family="second logical model incl. pydantic (realised data)", bounds="all 16 presence subsets")
     m.ob("convert", "a: int, b: str, isnone: bool, n: int", "return kinds_convert(a, b, isnone, n)", pre=["len(b) <= 1"], timeout=tmo,
          family="converters between any two pure-Python kinds copy every field", bounds="16 ordered kind pairs, symbolic field values")
+    m.ob("dump_bad_value", "ii: int, ti: int, a: int", "return kinds_dump_bad(ii, ti, a)", pre=["0 <= ii < 4", "0 <= ti < 5"], timeout=tmo,
+         family="dumping a malformed object (nested TypedDict without its required key, union field with a value of no member class): the four pure kinds agree, in all three debug modes",
+         bounds="4 inner values x 5 tag values (valid and malformed); dataclass / NamedTuple / TypedDict (optional keys) / attrs x DISABLE / FIRST / ALL; symbolic int")
     m.ob("convert_layouts", "a: int, b: str, isnone: bool, n: int", "return layouts_convert(a, b, isnone, n)", pre=["len(b) <= 1"], timeout=tmo,
          family="converters, loaders and dumpers for declaration layouts whose constructor parameter order differs from the field order",
-         bounds="4 layouts (keyword-only field declared first in a dataclass / attrs class, inherited field first, reordered __init__) x 4 pure kinds both ways "
+         bounds="6 layouts (keyword-only field declared first in a dataclass / attrs class, inherited field first, reordered __init__, attrs and pydantic parameters renamed with alias=) x 4 pure kinds both ways "
                 "and among themselves (41 converters; the plain class is a destination only); symbolic field values")
+    m.ob("convert_layouts_ext", "a: int, b: int, isnone: bool, n: int", "return layouts_convert_ext(a, b, isnone, n)",
+         pre=["0 <= a <= 2 and 0 <= b <= 2 and 0 <= n <= 2"], timeout=tmo, family="converters into / from a pydantic model whose parameters are renamed with alias= (pooled values)",
+         bounds="pydantic alias layout x 4 pure kinds and 5 layouts, both directions; values from 3-element pools")
     m.ob("convert_ext", "a: int, b: int, isnone: bool, n: int", "return kinds_convert_ext(a, b, isnone, n)",
          pre=["0 <= a <= 2 and 0 <= b <= 2 and 0 <= n <= 2"], timeout=tmo, family="converters between any two kinds copy every field (pooled values)",
          bounds="36 ordered kind pairs incl. pydantic / SQLAlchemy, field values from 3-value pools")
